@@ -407,6 +407,21 @@ func (x *c04Exec) userErrVal(tag int64) error {
 	kind := int((tag + int64(x.pk)) % c04NUserErrKinds)
 	var e error
 	raw := func(v error) error {
+		// a raw sentinel stands for ONE identity per run: not for two user errors, not for a user error and the commit fault
+		switch x.ek % c04NCommitErrKinds {
+		case 1:
+			if v == sql.ErrTxDone {
+				return fmt.Errorf("user%d: %w", tag, v)
+			}
+		case 3:
+			if v == driver.ErrBadConn {
+				return fmt.Errorf("user%d: %w", tag, v)
+			}
+		case 4:
+			if v == context.Canceled {
+				return fmt.Errorf("user%d: %w", tag, v)
+			}
+		}
 		for _, u := range x.userVals {
 			if u == v {
 				return fmt.Errorf("user%d: %w", tag, v) // sentinel already taken: wrap it
@@ -516,6 +531,7 @@ type c04Exec struct {
 	reuse        bool                 // the handle being used is a chained (clone = 0) handle kept in a variable
 	lastRes      *gorm.DB             // the *gorm.DB returned by the last Create (a chained handle, too)
 	cancels      []context.CancelFunc // cancel functions of the enclosing "keep:WithCancel" derivations
+	quirkB       map[int]bool         // failed implicit BEGINs issued through a reused chained handle outside a transaction
 	ended        string               // the outermost transaction being executed was ended underneath: "" | "rollback" | "commit"
 	endKinds     map[string]int
 	updSeq       int64
@@ -567,6 +583,9 @@ func (x *c04Exec) fault(idx int, ev *Event) error {
 		x.verdict("call %d (%s %q) was issued through a handle of transaction #%d but ran %s: it escapes the block's commit/rollback", k, t, ev.SQL, x.txOrd, where)
 	}
 	hit := x.mask[k] && t != "R" && (t != "T" || x.allowRb)
+	if hit && t == "B" && x.reuse && !x.opInTx {
+		x.quirkB[k] = true
+	}
 	if hit {
 		x.trace = append(x.trace, t+"!")
 		x.faulted = append(x.faulted, t)
@@ -928,7 +947,7 @@ func (x *c04Exec) judgeBlk(path string, nested, dis bool, obs *c04BlockObs, mark
 
 // runMan: a WELL-BEHAVED caller of the manual API (this is user code, not gorm code):
 //   tx := h.Begin(); if tx.Error != nil { return tx.Error }
-//   defer func() { if r := recover(); r != nil { tx.Rollback(); panic(r) } }()
+//   done := false; defer func() { if !done { r := recover(); tx.Rollback(); panic(r) } }()
 //   if err := body(tx); err != nil { tx.Rollback(); return err }
 //   return tx.Commit().Error   |   return tx.Rollback().Error
 func (x *c04Exec) runMan(h *gorm.DB, inTx bool, path string, n *c04Node) error {
@@ -950,14 +969,18 @@ func (x *c04Exec) runMan(h *gorm.DB, inTx bool, path string, n *c04Node) error {
 	x.txOrd = x.w.tags.nBegun
 	x.w.tags.mu.Unlock()
 	defer func() { x.txOrd = 0; x.opInTx = inTx; x.ended = "" }()
+	bodyDone := false
 	defer func() {
-		if r := recover(); r != nil {
+		if !bodyDone { // (not `recover() != nil`: go.mod < 1.21 keeps panic(nil) recoverable as nil)
+			r := recover()
 			tx.Rollback()
 			x.ref.end(false)
 			panic(r)
 		}
 	}()
-	if err := x.body(tx, true, path, n.Body); err != nil {
+	berr := x.body(tx, true, path, n.Body)
+	bodyDone = true
+	if err := berr; err != nil {
 		tx.Rollback()
 		x.ref.end(false)
 		return err
@@ -1109,6 +1132,20 @@ func (x *c04Exec) errAtoms(err error) []interface{} {
 	if err == nil {
 		return out
 	}
+	// gorm quirk on a chained handle REUSED outside a transaction (not a matter of this property): the Statement keeps the
+	// "gorm:started_transaction" mark of its previous operation, so when the implicit BEGIN of the next one fails,
+	// CommitOrRollbackTransaction still calls Rollback on the pool and ErrInvalidTransaction is joined to the BEGIN error
+	for i := 0; i+1 < len(out); i++ {
+		var k int
+		if s, ok := out[i].(string); ok && out[i+1] == "invalidTx" {
+			if _, e := fmt.Sscanf(s, "inj%d", &k); e == nil && x.quirkB[k] {
+				out = append(out[:i+1], out[i+2:]...)
+			}
+		}
+	}
+	if x.ek%c04NCommitErrKinds == 1 {
+		return out // the injected value IS sql.ErrTxDone: indistinguishable from a genuine one, both read "txDone" (see c04Runner.flush)
+	}
 	pieces := strings.Split(err.Error(), "; ")
 	used := map[int]bool{}
 	for i, piece := range pieces {
@@ -1150,7 +1187,7 @@ func c04Run(w *c04World, initial []int64, body []*c04Node, mask []int, allowRb b
 	w.reset(initial)
 	x := &c04Exec{w: w, mask: map[int]bool{}, allowRb: allowRb, users: map[int64]*c04UserErr{}, payloads: map[int64]*c04Payload{},
 		pk: pk, ek: ek, payloadVals: map[int64]interface{}{}, userVals: map[int64]error{}, payloadKinds: map[string]int{},
-		userKinds: map[string]int{}, endKinds: map[string]int{}}
+		userKinds: map[string]int{}, endKinds: map[string]int{}, quirkB: map[int]bool{}}
 	x.ref.committed = map[int64]bool{}
 	for _, id := range initial {
 		x.ref.committed[id] = true
@@ -1334,7 +1371,7 @@ func (x *c04Exec) runEnd(h *gorm.DB, inTx bool, path string, n *c04Node) error {
 			x.ref.end(false)
 			x.ended = "rollback"
 		}
-		return nil
+		return h.Error // (what `h.Rollback().Error` reports besides: the error the handle already carried)
 	case 2:
 		p := len(x.trace)
 		err := h.Commit().Error
